@@ -114,6 +114,10 @@ def scenario(tier):
         r = b.run("create", root="R", h=hs, i=pats)
         m2 = b.manifests("R")[-1]
         check_dirhashes(b, m2, "R", fmts, ignored, "gen2 after %s" % mut)
+        if sym.flag("third_generation_adds_a_format"):
+            extra = [f for f in ["sha1", "md5"] if f not in fmts][0]
+            r = b.run("create", root="R", h=hs + [extra], i=pats)
+            check_dirhashes(b, b.manifests("R")[-1], "R", fmts + [extra], ignored, "gen3 (format %s added) after %s" % (extra, mut))
         # corollaries of the definition (checked on the recorded values)
         for f in fmts:
             c1, s1 = [(e.digest, e.structure) for e in m.roothash if e.fmt == f][0]
